@@ -76,3 +76,15 @@ pub proof fn lemma_rec_undecl(o: FixtureDatabase, a: FixtureDatabase, b: Fixture
     reveal(rec_rel);
     assert(b.undeclared_fixtures.m().remove(f) == o.undeclared_fixtures.m().remove(f));
 }
+/// rec_rel spelled out (for callers that want the conjuncts: unit analyze)
+pub proof fn lemma_rec_open(o: FixtureDatabase, s: FixtureDatabase, ds: Seq<DefV>, us: Seq<UseV>, f: PV)
+    requires rec_rel(o, s, ds, us, f),
+    ensures
+        s.defs() == push_defs(o.defs(), ds), s.fdefs() == add_fdefs(o.fdefs(), ds),
+        s.uses() == push_uses(o.uses(), us), s.byfix() == push_byfix(o.byfix(), us),
+        s.version() == bumpn(o.version(), ds.len() as int),
+        s.file_cache == o.file_cache, s.imports == o.imports,
+        undecl_frame(o.undeclared_fixtures.m(), s.undeclared_fixtures.m(), f),
+{
+    reveal(rec_rel);
+}
